@@ -618,12 +618,90 @@ Definition parse_generic (toks : list tok) : res rdata :=
   | _ => Lib eSyntax
   end.
 
+(* A known type in RFC 3597 syntax (dns.rdata.from_text, generic branch): GenericRdata.from_text gives the
+   octets, from_wire decodes them with origin = relativize_to (the zone origin) when relativizing, and the
+   result must encode back to the same octets (so no compression pointers).  Modelled for the layouts made
+   of names, unsigned integers and IPv4 addresses; every failure is a SyntaxError for the zone reader. *)
+Definition hexval (c : Z) : Z := if is_digit c then c - 48 else c - 87.
+
+Fixpoint hex_bytes (h : list Z) : list Z :=
+  match h with
+  | a :: b :: r => (hexval a * 16 + hexval b) :: hex_bytes r
+  | _ => []
+  end.
+
+Fixpoint wire_name (fuel : nat) (bs : list Z) (acc : list (list Z)) : option (name * list Z) :=
+  match fuel with
+  | O => None
+  | S f =>
+      match bs with
+      | [] => None
+      | l :: r =>
+          if l =? 0 then Some (rev ([] :: acc), r)
+          else if (l <=? 63) && (l <=? zlen r)
+          then wire_name f (skipn (Z.to_nat l) r) (firstn (Z.to_nat l) r :: acc)
+          else None
+      end
+  end.
+
+Definition take_uint (w : nat) (bs : list Z) : option (Z * list Z) :=
+  if Nat.ltb (length bs) w then None
+  else Some (fold_left (fun a b => a * 256 + b) (firstn w bs) 0, skipn w bs).
+
+Definition dotted (bs : list Z) : list Z :=
+  match bs with
+  | [a; b; c; d] => dec a ++ 46 :: dec b ++ 46 :: dec c ++ 46 :: dec d
+  | _ => []
+  end.
+
+Fixpoint wire_fields (ks : list fkind) (bs : list Z) (rel : bool) (zo : name) : res rdata :=
+  match ks with
+  | [] => match bs with [] => Ok [] | _ => Lib eSyntax end
+  | k :: ks' =>
+      do (v, rest) <-
+         (match k with
+          | KName =>
+              match wire_name (S (length bs)) bs [] with
+              | Some (n, rest) =>
+                  if zlen bs - zlen rest >? 255 then Lib eSyntax
+                  else match choose_relativity n (Some zo) rel with
+                       | Ok n' => Ok (VName n', rest)
+                       | _ => Lib eSyntax
+                       end
+              | None => Lib eSyntax
+              end
+          | KU mx =>
+              match take_uint (if mx =? 255 then 1 else if mx =? 65535 then 2 else 4) bs with
+              | Some (z, rest) => Ok (VInt z, rest)
+              | None => Lib eSyntax
+              end
+          | KTtl => match take_uint 4 bs with Some (z, rest) => Ok (VInt z, rest) | None => Lib eSyntax end
+          | KIPv4 => if Nat.ltb (length bs) 4 then Lib eSyntax
+                     else Ok (VTok (dotted (firstn 4 bs)), skipn 4 bs)
+          | _ => Lib eUnmodelled
+          end);
+      do r <- wire_fields ks' rest rel zo;
+      Ok (v :: r)
+  end.
+
+Definition wire_modelled (ks : list fkind) : bool :=
+  forallb (fun k => match k with KName | KU _ | KTtl | KIPv4 => true | _ => false end) ks.
+
 Definition parse_rdata (ty : Z) (toks : list tok) (lerr : bool) (co : name) (rel : bool) (zo : name)
   : res rdata :=
   match tbl_by_code type_table ty with
   | Some (_, ks) =>
       match toks with
-      | TId [92; 35] :: _ => Lib eUnmodelled     (* known type in generic syntax: needs the wire codec *)
+      | TId [92; 35] :: _ =>
+          if wire_modelled ks then
+            do g <- parse_generic toks;
+            match g with
+            | [_; _; VRest hs] =>
+                do rd <- wire_fields ks (hex_bytes (concat hs)) rel zo;
+                if lerr then Lib eSyntax else Ok rd
+            | _ => Lib eSyntax
+            end
+          else Lib eUnmodelled     (* the other layouts need more of the wire codec *)
       | _ => do rd <- parse_fields ks toks co rel zo; if lerr then Lib eSyntax else Ok rd
       end
   | None => do rd <- parse_generic toks; if lerr then Lib eSyntax else Ok rd
